@@ -315,7 +315,7 @@ def run_query(q):
         st = r.get("status", "")
         c = classify(pname, desc)
         if c == "witness":
-            witness_ok = (st == "FAILURE")
+            witness_ok = witness_ok or (st == "FAILURE")     # any end-of-harness witness reached
             continue
         nprops += 1
         if st == "FAILURE":
